@@ -206,6 +206,16 @@ let () =
                   pr ") ";
                   (match fin with SDone -> pr "done" | SErr x -> pexn x | SDiv -> pr "div");
                   pr ")")
+             | L [A "transform"] ->
+               (* transform_string: scan_string with keepTabs forced on and the default options, then Model/Transform.v *)
+               (match run_d (scan_string root true input None false true) with
+                | None -> pr "(oof)"
+                | Some (ms, SDone) ->
+                  pr "(str";
+                  List.iter (fun c -> pr " "; pint (int_of_n c)) (transform input ms);
+                  pr ")"
+                | Some (_, SErr x) -> pexn x
+                | Some (_, SDiv) -> pr "(div)")
              | L [A "peg"] ->
                (* the reference reading on the tab-expanded input, with the class memberships *)
                let s' = if ba kt then input else expandtabs input in
